@@ -29,15 +29,18 @@ def checkCuts (P : Parser E) (tag pre : List Char) (it : Item E) : Bool :=
   (splits it.text).all fun pq =>
     pq.1.isEmpty || pq.2.isEmpty || (P (wrapOf tag (pre ++ pq.1))).isNone
 
-/-- `PrefixOracle` by exhaustive enumeration of `items = A ++ B ++ C` and of the cuts of the next item -/
-def checkOracle [DecidableEq E] (P : Parser E) (items : List (Item E)) : Bool :=
+/-- `PrefixOracleFrom t0` by exhaustive enumeration of `items = A ++ B ++ C` and of the cuts of the next item -/
+def checkOracleFrom [DecidableEq E] (t0 : List Char) (P : Parser E) (items : List (Item E)) : Bool :=
   items.all shapeOk &&
   (splits items).all fun ar =>
     (splits ar.2).all fun bc =>
       (bc.1.all (fun it => it.ws) ||
-        decide (attempt P (tagAfter ar.1) (textOf bc.1) = some (tagAfter (ar.1 ++ bc.1), evsOf bc.1))) &&
+        decide (attempt P (tagFrom t0 ar.1) (textOf bc.1) = some (tagFrom t0 (ar.1 ++ bc.1), evsOf bc.1))) &&
       (match bc.2 with
        | [] => true
-       | it :: _ => checkCuts P (tagAfter ar.1) (textOf bc.1) it)
+       | it :: _ => checkCuts P (tagFrom t0 ar.1) (textOf bc.1) it)
+
+/-- fresh connection -/
+def checkOracle [DecidableEq E] (P : Parser E) (items : List (Item E)) : Bool := checkOracleFrom [] P items
 
 end Qx.C03
